@@ -22,6 +22,11 @@ under the deterministic scheduler of `harness/sim/sched.py`:
 The variant of the model (does the stopper returned by `call_repeatedly` join the keep-alive thread?)
 is probed on the real code and cross-checked with what the translator read from the AST.
 
+Retransmissions: `cfg['mr']` is `Rmcp(max_retries=…)` and `cfg['lose']` the loss plan of the fake network (the
+reply to the k-th datagram of the run is withheld for good: its sender's `recvfrom` raises `socket.timeout`), so the
+real retry loop runs — pack again, transmit again, inside the same lock hold — for application threads, the
+keep-alive and Close Session alike; the socket logs the time-out (`X:tid:serial`) next to the datagrams.
+
 For every explored schedule
   (1) the Spec monitor (Lean, `Spec.Threads.accepts`, through `drv_c14 mon`) judges the REAL wire
       log and the REAL per-call results — the property oracle, violation => replay = the schedule;
@@ -56,7 +61,16 @@ RULE = ('one case = one complete schedule of the real Rmcp shared by 2..4 real t
         'withheld until the next datagram is sent, under every schedule with <= 2 (thorough: 3) preemptions at '
         'shared-access granularity - the schedule "A increments, B increments, B reads, A reads" among them; judged '
         'by an oracle that holds under the fault too: a call may fail, but it never returns the reply to a datagram its '
-        'caller did not send.  Distinct by (configuration, choice list); non-trivial = at least '
+        'caller did not send.  Retransmission stream (always on): Rmcp(max_retries = 1 | 2) behind a network that loses '
+        'the replies named by a loss plan (the reply to the k-th datagram of the run is withheld: socket.timeout), for '
+        'application threads, the keep-alive and Close Session: each configuration with the reply to the k-th datagram '
+        'lost, k = 0..5, without preemption, then every schedule with <= 2 (thorough: 3) preemptions for a fixed list of '
+        '(configuration, loss plan) pairs - one loss, two in a row within the budget, more than the budget (the call '
+        'must end in an error and release the lock) - and a quarter of the random configurations carry max_retries 1..2 '
+        'and a random loss plan; judged by the same Lean monitor (session sequence numbers strictly increasing over the '
+        'whole wire log, retransmissions included; a call returns its own reply, or an error after a time-out on its '
+        'own datagram) and validated against the Lean model with the same retry budget and loss plan.  '
+        'Distinct by (configuration, choice list); non-trivial = at least '
         'one context switch between two threads that both still have work.')
 ASSUMPTIONS = [
     'the theorems quantify over ALL schedules of the Lean model; that the model\'s atomic steps are the '
@@ -78,10 +92,19 @@ ASSUMPTIONS = [
     'immediately and correctly (the model\'s BMC, the monitor\'s clauses X S O C); the late-reply stream delays exactly '
     'one reply by one exchange and is judged on the real code only (the Lean model has no delayed replies: what it '
     'proves for that case is rq_seq_distinct_on_wire / late_reply_cannot_match - the late reply cannot carry the '
-    'number of the request it would be mistaken for); loss, duplication and other stale frames belong to C04',
+    'number of the request it would be mistaken for); duplication and other stale frames belong to C04',
+    'lost replies: the model\'s network either answers a datagram at once or never (loss plan = set of datagram '
+    'numbers whose reply is lost; the theorems quantify over every plan and every max_retries); a lost REQUEST is '
+    'not distinguished from a lost reply (the console cannot tell them apart: same time-out, same retransmission); '
+    'a reply that is delayed beyond the time-out and then still delivered is the late-reply stream above (real code '
+    'only, max_retries = 0)',
     'which of the model\'s variants the traces are validated against (stopper joins / sequence number allocated inside '
-    'the lock block) is probed on the real code and cross-checked with the translator\'s reading of the AST',
-    'model covers max_retries = 0 and unbridged targets (the configuration explored)',
+    'the lock block / session wrapper packed by the transmission of every attempt) is probed on the real code and '
+    'cross-checked with the translator\'s reading of the AST',
+    'model covers unbridged targets (the configuration explored); max_retries: the theorems hold for every value, the '
+    'real code is run with 0, 1 and 2; clause (Q) - consecutive datagrams carry different IPMB request sequence '
+    'numbers - is proved and judged for max_retries = 0 only (a retransmission repeats the request sequence number '
+    'of the datagram it repeats, as IPMI intends)',
     'the read of Session.sequence_number made while close_session formats the session for its debug-log line is not '
     'part of the logged access sequence (it feeds the log text only); Close Session is answered with a completion '
     'code only, so "the reply the closing thread was handed" is identified by the datagram whose reply that thread '
@@ -191,6 +214,8 @@ class Env(object):
         self.cur_tx = {}
         self.last_rx = {}
         self.quiet = set()          # tids that are formatting the session for the debug log
+        self.lose = set(cfg.get('lose') or ())   # datagram numbers whose reply the network loses
+        self.lost = []
         self.stash = None           # a withheld reply (late-reply stream): delivered with the next datagram
         self.drained = []           # (tid, serial) of datagrams discarded by a non-blocking read
         self.notes = []
@@ -230,6 +255,9 @@ class FakeSock(object):
         reply, (seq, rq, cmd) = env.bmc.handle(bytes(pdu), serial)
         if on and reply is not None and env.cfg.get('late') == serial:
             env.stash, reply = (reply, serial), None
+        if on and reply is not None and serial in env.lose:
+            env.lost.append(serial)     # lost for good: the sender's recvfrom will time out
+            reply = None
         if on:
             env.serial += 1
             tid = s.tid()
@@ -258,6 +286,8 @@ class FakeSock(object):
         if not env.rxq:
             if on:
                 s.emit('rxTimeout')
+                # what the socket sees: this thread gave up waiting while datagram serial-1 was the latest one
+                env.wire.append('X:%d:%d' % (s.tid(), env.serial - 1))
             raise socket.timeout('timed out')
         reply, serial = env.rxq.pop(0)
         if on:
@@ -391,7 +421,7 @@ def execute(cfg, policy, record=False):
     old = R.threading
     R.threading = shim
     try:
-        rm = TRmcp(keep_alive_interval=(1 if cfg['ka'] else 0))
+        rm = TRmcp(keep_alive_interval=(1 if cfg['ka'] else 0), max_retries=cfg.get('mr', 0))
         if not isinstance(getattr(rm, 'transaction_lock', None), S.SchedLock):
             rm.transaction_lock = S.SchedLock(sched)
         rm._sock = FakeSock(env)
@@ -454,6 +484,7 @@ def execute(cfg, policy, record=False):
     out.trace = ['%s:%s' % (tid, ':'.join(str(x) for x in ev)) for tid, ev in sched.log]
     out.wire = env.wire
     out.drained = env.drained
+    out.lost = env.lost
     out.results = env.results
     out.notes = env.notes + env.bmc.notes
     out.exc = [(t.tid, type(t.exc).__name__) for t in sched.threads if t.exc is not None]
@@ -467,10 +498,11 @@ def execute(cfg, policy, record=False):
 def _res_tokens(results):
     toks = []
     for tid, sent, got, err in results:
-        if len(sent) == 1 and got is not None and err is None:
-            toks.append('%d:%d:%d' % (tid, sent[0], got))
+        if sent and got is not None and err is None:
+            # the datagram of this call that the reply answers (normally the one transmitted last), else the last
+            toks.append('%d:%d:%d' % (tid, got if got in sent else sent[-1], got))
         else:
-            toks.append('%d:%d:-' % (tid, sent[0] if sent else 0))
+            toks.append('%d:%d:-' % (tid, sent[-1] if sent else 0))
     return toks
 
 
@@ -487,6 +519,19 @@ def _expected_calls(cfg):
     closes, and the keep-alive's: all `ka` of them when nobody stops it, any number up to `ka` otherwise."""
     base = sum(c for c, _ in cfg['workers']) + (1 if _closer(cfg) is not None else 0)
     return (base if _closer(cfg) is not None and cfg['ka'] else base + cfg['ka'], base + cfg['ka'])
+
+
+def _ka_failed(cfg, out):
+    """the keep-alive's request failed (replies lost beyond the retry budget): call_repeatedly does not catch
+    RetryError, the loop - and with it the remaining ticks - ends"""
+    ka = len(cfg['workers'])
+    return bool(cfg['ka']) and any(r[0] == ka and r[3] for r in out.results)
+
+
+def _close_failed(cfg, out):
+    cl = _closer(cfg)
+    mine = [r for r in out.results if r[0] == cl]
+    return bool(mine) and bool(mine[-1][3])
 
 
 _VARIANT = {}
@@ -514,6 +559,40 @@ def variant_seq_locked():
         evs = [tok.split(':')[1] for tok in out.trace]
         _VARIANT_SEQ[key] = ('acq' in evs and 'ldNS' in evs and evs.index('acq') < evs.index('ldNS'))
     return _VARIANT_SEQ[key]
+
+
+_VARIANT_PACK = {}
+
+
+def variant_pack_per_attempt():
+    """Does a retransmission build the session wrapper again?  Probed on one call of the real `_send_and_receive`
+    with max_retries = 1 whose first reply is lost, no preemption: is the session sequence number stored again
+    between the two transmissions?"""
+    key = repo.REPO
+    if key not in _VARIANT_PACK:
+        out = execute(_cfg([(1, 1)], 0, 'none', 5, 0, 'sync', mr=1, lose=[0]), S.ReplayPolicy([]))
+        evs = [tok.split(':')[1] for tok in out.trace]
+        tx = [i for i, e in enumerate(evs) if e == 'tx']
+        _VARIANT_PACK[key] = len(tx) < 2 or 'stSS' in evs[tx[0]:tx[1]]
+    return _VARIANT_PACK[key]
+
+
+def _seq_break(wire):
+    """first pair of consecutive transmissions whose session sequence numbers do not increase ->
+    (previous T fields, this T fields, a time-out lies between them)"""
+    prev, gap = None, False
+    for w in wire:
+        p = w.split(':')
+        if p[0] == 'X':
+            gap = True
+        if p[0] != 'T':
+            continue
+        if prev is not None:
+            a, b = int(prev[3]), int(p[3])
+            if not (a < b or (a == 0xffffffff and b == 1)):
+                return prev, p, gap
+        prev, gap = p, False
+    return None
 
 
 def _switches(out):
@@ -563,30 +642,40 @@ def judge(ctx, cfg, out, drv, model=True, choices=None):
                     '; the session sequence numbers are not strictly increasing' if flags.get('S') == '0' else ''))
         elif flags.get('S') == '0':
             sig, what = 'C14:session-sequence-not-increasing', 'session sequence numbers do not strictly increase in transmission order'
+            br = _seq_break(out.wire)
+            if br is not None and br[2] and br[0][1] == br[1][1]:
+                sig += ':retransmission'
+                what = ('a retransmission (Rmcp(max_retries=%d), the reply to datagram %s was lost) does not take a new '
+                        'session sequence number: thread %s sent datagram %s with session sequence %s and, after the '
+                        'time-out, datagram %s with session sequence %s' % (
+                            cfg.get('mr', 0), br[0][2], br[0][1], br[0][2], br[0][3], br[1][2], br[1][3]))
         elif flags.get('O') == '0':
             sig, what = 'C14:caller-did-not-get-own-reply', 'a caller did not receive the reply to its own request'
         else:
             sig, what = 'C14:monitor-input', 'wire log not understood by the monitor: ' + verdict
         sigs.append(sig)
-        ctx.violate(sig, what, case, expected='Spec.Threads.accepts (X: tx/rx pairs of one thread, S: increasing, O: own reply, '
-                    'C: nothing after Close Session)',
-                    observed={'monitor': verdict, 'wire': out.wire, 'results': rtoks,
+        ctx.violate(sig, what, case, expected='Spec.Threads.accepts (X: tx/rx pairs of one thread, S: increasing over the '
+                    'whole wire log, retransmissions included, O: own reply or an error after a time-out, C: nothing '
+                    'after Close Session)',
+                    observed={'monitor': verdict, 'wire': out.wire, 'results': rtoks, 'lost_replies': out.lost,
                               'errors': [r[3] for r in out.results if r[3]], 'thread_exceptions': out.exc})
-    elif not (_expected_calls(cfg)[0] <= len(out.results) <= _expected_calls(cfg)[1]):
+    elif not ((_expected_calls(cfg)[0] if not _ka_failed(cfg, out) else
+               _expected_calls(cfg)[1] - cfg['ka'] + 1) <= len(out.results) <= _expected_calls(cfg)[1]):
         sigs.append('C14:call-count')
         ctx.violate('C14:call-count', 'a thread did not make the calls it was asked to make', case,
                     expected='%d..%d calls' % _expected_calls(cfg), observed={'results': rtoks, 'thread_exceptions': out.exc})
-    elif _closer(cfg) is not None and out.final_act:
+    elif _closer(cfg) is not None and out.final_act and not _close_failed(cfg, out):
         sigs.append('C14:session-left-active')
         ctx.violate('C14:session-left-active', 'close_session() returned and the session is still marked activated', case,
                     expected='Session.activated == False', observed={'results': rtoks, 'notes': out.notes})
     if model:
         xl = 1 if cfg['auth'] == 'md5' else 0
         cl = _closer(cfg)
-        ans = drv.ask('run %d %d %d %s %s %s %d %d | %s' % (
+        ans = drv.ask('run %d %d %d %s %s %s %d %d %d %s %d | %s' % (
             xl, cfg['ns0'], cfg['ss0'], ','.join(_model_threads(cfg)) or '-', cfg['ka'] if cfg['ka'] else '-',
             cl if cl is not None else '-', 1 if variant_joins() else 0, 1 if variant_seq_locked() else 0,
-            ' '.join(out.trace)))
+            cfg.get('mr', 0), ','.join(str(k) for k in sorted(set(cfg.get('lose') or ()))) or '-',
+            0 if variant_pack_per_attempt() else 1, ' '.join(out.trace)))
         ok = False
         if ans.startswith('ok wire'):
             body = ans[len('ok wire'):].split()
@@ -621,10 +710,14 @@ def _after_close(wire):
 
 
 # ------------------------------------------------------------------------- exploration
-def _cfg(workers, ka, auth='none', ss0=0x10, ns0=4, gran='sync', closer=None):
+def _cfg(workers, ka, auth='none', ss0=0x10, ns0=4, gran='sync', closer=None, mr=0, lose=None):
     c = {'workers': [list(w) for w in workers], 'ka': ka, 'auth': auth, 'ss0': ss0, 'ns0': ns0, 'gran': gran}
     if closer is not None:
         c['closer'] = closer
+    if mr:
+        c['mr'] = mr                    # Rmcp(max_retries=…)
+    if lose:
+        c['lose'] = sorted(set(lose))   # loss plan: the reply to the k-th datagram of the run is lost
     return c
 
 
@@ -658,6 +751,20 @@ def _measure(ctx, cfg, out):
     ctx.count('auth:' + cfg['auth'])
     if cfg['ka']:
         ctx.count('with-keep-alive')
+    if cfg.get('mr'):
+        ctx.count('max_retries:%d' % cfg['mr'])
+        ka, cl = len(cfg['workers']), _closer(cfg)
+        txs = [w.split(':') for w in out.wire if w.startswith('T:')]
+        for k in out.lost:
+            who = [p for p in txs if int(p[2]) == k]
+            if who:
+                ctx.count('reply-lost:%s' % ('Close-Session' if who[0][5] == '60' else
+                                             'keep-alive' if cfg['ka'] and int(who[0][1]) == ka else 'application-thread'))
+        nre = sum(max(0, len(r[1]) - 1) for r in out.results)
+        if nre:
+            ctx.count('retransmissions:%s' % ('1' if nre == 1 else '2' if nre == 2 else '>=3'))
+        if any(r[3] for r in out.results):
+            ctx.count('call-failed-after-retry-budget')
     if _closer(cfg) is not None:
         ctx.count('with-close_session')
         st = _stop_timing(cfg, out)
@@ -770,8 +877,10 @@ def _systematic(ctx, drv, cfg, bound, st, limit, should_stop):
         out = _one(ctx, drv, cfg, S.ReplayPolicy(prefix), st, record=True)
         return out.record if out.status == 'complete' else None
     n, trunc = S.explore(ex, bound, limit=limit, should_stop=should_stop)
-    key = 'systematic %s %s ka=%d%s bound=%d' % (cfg['gran'], 'x'.join(str(c) for c, _ in cfg['workers']), cfg['ka'],
-                                                 '' if _closer(cfg) is None else ' closer=%d' % _closer(cfg), bound)
+    key = 'systematic %s %s ka=%d%s%s bound=%d' % (cfg['gran'], 'x'.join(str(c) for c, _ in cfg['workers']), cfg['ka'],
+                                                   '' if _closer(cfg) is None else ' closer=%d' % _closer(cfg),
+                                                   '' if not cfg.get('mr') else ' max_retries=%d lose=%s' % (
+                                                       cfg['mr'], cfg.get('lose')), bound)
     ctx.extra.setdefault('systematic', {})[key] = {'schedules': n, 'exhausted': not trunc}
     return n
 
@@ -797,7 +906,13 @@ def _random_cfg(rng, gran):
             workers[closer][0] = 0          # a thread that only closes the session
         if ka == 0 and rng.random() < 0.8:
             ka = rng.choice([1, 2])
-    return _cfg(workers, ka, auth, ss0, ns0, gran, closer)
+    mr, lose = 0, None
+    if rng.random() < 0.25:
+        # Rmcp(max_retries=1|2) behind a lossy network: 1..3 of the first datagrams lose their reply
+        mr = rng.choice([1, 1, 2])
+        total = sum(c for c, _ in workers) + ka + (1 if closer is not None else 0)
+        lose = rng.sample(range(total + 3), rng.choice([1, 1, 2, 3]))
+    return _cfg(workers, ka, auth, ss0, ns0, gran, closer, mr, lose)
 
 
 # (granularity, workers, keep-alive firings, preemption bound quick, thorough, closing worker); None = not
@@ -899,6 +1014,13 @@ def _variant_probe(ctx):
                          shape['seqInLock'], shape.get('seqOutsideLock')),
                      'the real call %s the lock before it touches next_sequence_number' % (
                          'takes' if locked else 'does NOT take'))
+    per = variant_pack_per_attempt()
+    ctx.extra['session_wrapper_packed_per_attempt'] = per
+    if 'packPerAttempt' in shape and bool(shape['packPerAttempt']) != per:
+        ctx.disagree('variant', {'probe': 'one call with max_retries = 1 whose first reply is lost, no preemption'},
+                     'translator: packPerAttempt=%s (%s)' % (shape['packPerAttempt'], shape.get('packText')),
+                     'the real retransmission %s the session sequence number again' % (
+                         'stores' if per else 'does NOT store'))
     if 'stopperJoins' in shape and bool(shape['stopperJoins']) != joins:
         ctx.disagree('variant', {'probe': 'close_session() with the keep-alive asleep, no preemption'},
                      'translator: stopperJoins=%s (%s)' % (shape['stopperJoins'], shape.get('stopperText')),
@@ -999,6 +1121,55 @@ def _shrink_faulty(cfg, choices):
     return None
 
 
+# (granularity, workers, keep-alive ticks, closing worker, max_retries, loss plan, bound quick, bound thorough)
+RETRY_CFGS = [
+    ('sync', [(1, 1), (1, 1)], 0, None, 1, [0], 2, 3),            # one retransmission by an application thread
+    ('sync', [(1, 1)], 1, None, 1, [0], 2, 3),                    # … by whichever of caller / keep-alive goes first
+    ('sync', [(0, 1)], 1, 0, 2, [0, 1], 2, 3),                    # two in a row: the keep-alive's or Close Session's
+    ('sync', [(1, 4)], 1, 0, 1, [1, 2], 2, 3),                    # more than the budget: that call ends in an error
+    ('sync', [(2, 1), (1, 4)], 0, None, 1, [1], 2, 3),
+    ('access', [(1, 1), (1, 1)], 0, None, 2, [0, 1], 1, 2),
+    ('access', [(0, 1)], 1, 0, 1, [0], 1, 2),                     # close_session against a retransmitting keep-alive
+    ('sync', [(1, 1), (1, 1), (1, 1)], 0, None, 1, [0, 2], 1, 2),
+    ('sync', [(1, 1), (1, 4)], 1, 1, 2, [0, 2, 3], 1, 2),
+    ('sync', [(2, 1), (2, 1)], 1, None, 2, [1, 2, 4], None, 2),
+    ('access', [(2, 1), (1, 1)], 1, 0, 1, [0, 3], None, 1),
+]
+
+
+def _retry_stream(ctx, drv, budget_s):
+    """Rmcp(max_retries >= 1) behind a network that loses replies: the real retry loop (time-out, pack again, transmit
+    again, all inside one lock hold) of application threads, the keep-alive and Close Session, under the scheduler.
+    First every configuration with the reply to the k-th datagram lost, k = 0..5, without preemption (a retransmission
+    that repeats a session sequence number shows at once); then schedules with a preemption bound."""
+    import time
+    t0 = time.time()
+    t_end = t0 + budget_s
+    st = {'violations': 0, 'shrunk': set()}
+    n = 0
+    auths = ['none', 'md5', 'password']
+    try:
+        for i, (workers, ka, closer) in enumerate([([(2, 1), (2, 1)], 0, None), ([(1, 1)], 1, None), ([(0, 1)], 1, 0),
+                                                    ([(1, 4), (1, 1)], 1, 0)]):
+            total = sum(c for c, _ in workers) + ka + (1 if closer is not None else 0)
+            for k in range(min(6, total + 1)):
+                for mr in (1, 2):
+                    cfg = _cfg(workers, ka, auths[(i + k) % 3], ss0=0xfffffffe if (i + k) % 4 == 3 else 0x60 + 8 * i + k,
+                               ns0=[4, 62, 63][k % 3], gran='sync', closer=closer, mr=mr, lose=[k] if mr == 1 else [k, k + 1])
+                    _one(ctx, drv, cfg, S.ReplayPolicy([]), st)
+                    n += 1
+        for i, row in enumerate(RETRY_CFGS):
+            bound = row[6] if ctx.tier == 'quick' else row[7]
+            if bound is None or time.time() > t_end:
+                continue
+            cfg = _cfg(row[1], row[2], auths[i % 3], ss0=0xfffffffd if i % 4 == 2 else 0x30 + i,
+                       ns0=62 if i % 3 == 1 else 5, gran=row[0], closer=row[3], mr=row[4], lose=row[5])
+            n += _systematic(ctx, drv, cfg, bound, st, 4000 if ctx.tier == 'quick' else 60000, lambda: time.time() > t_end)
+    except Stop:
+        ctx.notes.append('retransmission stream stopped after %d violating schedules' % st['violations'])
+    ctx.extra['retransmission_stream'] = {'schedules': n, 'wall_s': round(time.time() - t0, 1)}
+
+
 def run(ctx):
     drv = ctx.driver('drv_c14')
     if drv.ask('ping') != 'pong':
@@ -1007,6 +1178,7 @@ def run(ctx):
     _keepalive_probe(ctx)
     _variant_probe(ctx)
     _late_reply_stream(ctx, drv, 8 if ctx.tier == 'quick' else 120)
+    _retry_stream(ctx, drv, 7 if ctx.tier == 'quick' else 100)
     _explore_all(ctx, drv, ctx.tier)
 
 
@@ -1090,7 +1262,11 @@ def replay(ctx, v):
     print('schedule: %d recorded choices%s' % (len(choices), '' if pol.diverged is None else
                                                ' (recorded choice %d was not enabled on this tree; continued without preemption)' % pol.diverged))
     print('status: %s' % out.status)
-    print('wire log (T:tid:serial:session_seq:rq_seq:cmd / R:tid:serial):')
+    if cfg.get('mr') or cfg.get('lose'):
+        print('Rmcp(max_retries=%d); replies lost by the network: to datagram(s) %s; on this tree a retransmission %s' % (
+            cfg.get('mr', 0), out.lost, 'packs the session wrapper again' if variant_pack_per_attempt()
+            else 'repeats the stored datagram'))
+    print('wire log (T:tid:serial:session_seq:rq_seq:cmd / R:tid:serial / X:tid:serial = time-out on that datagram):')
     print('  ' + ' '.join(out.wire))
     print('results (tid:sent:got): ' + ' '.join(_res_tokens(out.results)))
     print('accesses (tid:event): ' + ' '.join(out.trace))
